@@ -7,3 +7,33 @@ package common
 //@ func MarkRetriable
 //@   modifies nothing
 //@   ensures wrapped: result != nil
+
+// C02: the resume offsets. Advance is the per-source later-of-the-two (wal.Offset.After decides; a source present in only
+// one map keeps its offset); LimitAge replaces exactly the offsets that are older than the limit by the limit.
+//@ func (OffsetsBySource).LimitAge
+//@   modifies nothing
+//@   ensures same_sources: forall s :: has(result, s) == has(offsetsBySource, s)
+//@   ensures limited: forall s :: has(offsetsBySource, s) ==> result[s] == (limit.After(offsetsBySource[s]) ? limit : offsetsBySource[s])
+//@   ensures fresh_result: fresh(result)
+//@   loop 0 modifies result
+//@   loop 0 invariant fresh_map: result != nil && fresh(result)
+//@   loop 0 invariant only_visited: forall s :: has(result, s) == (has(offsetsBySource, s) && visited(s))
+//@   loop 0 invariant done: forall s :: visited(s) ==> result[s] == (limit.After(offsetsBySource[s]) ? limit : offsetsBySource[s])
+
+//@ func (OffsetsBySource).Advance
+//@   modifies nothing
+//@   ensures nil_receiver: offsetsBySource == nil ==> result == newOffsetsBySource
+//@   ensures nil_argument: offsetsBySource != nil && newOffsetsBySource == nil ==> result == offsetsBySource
+//@   ensures new_wins: offsetsBySource != nil && newOffsetsBySource != nil ==> (forall s :: has(newOffsetsBySource, s) && newOffsetsBySource[s].After(has(offsetsBySource, s) ? offsetsBySource[s] : nil) ==> has(result, s) && result[s] == newOffsetsBySource[s])
+//@   ensures old_kept: offsetsBySource != nil && newOffsetsBySource != nil ==> (forall s :: has(offsetsBySource, s) && !(has(newOffsetsBySource, s) && newOffsetsBySource[s].After(offsetsBySource[s])) ==> has(result, s) && result[s] == offsetsBySource[s])
+//@   ensures nothing_else: offsetsBySource != nil && newOffsetsBySource != nil ==> (forall s :: has(result, s) ==> has(offsetsBySource, s) || has(newOffsetsBySource, s))
+//@   loop 0 modifies result
+//@   loop 0 invariant fresh_map: result != nil && fresh(result)
+//@   loop 0 invariant copied: forall s :: has(result, s) == (has(offsetsBySource, s) && visited(s))
+//@   loop 0 invariant copied_val: forall s :: visited(s) ==> result[s] == offsetsBySource[s]
+//@   loop 1 modifies result
+//@   loop 1 invariant fresh_map: result != nil && fresh(result)
+//@   loop 1 invariant visited_new: forall s :: visited(s) ==> has(newOffsetsBySource, s)
+//@   loop 1 invariant dom: forall s :: has(result, s) == (has(offsetsBySource, s) || (has(newOffsetsBySource, s) && visited(s) && newOffsetsBySource[s].After(has(offsetsBySource, s) ? offsetsBySource[s] : nil)))
+//@   loop 1 invariant vals_done: forall s :: visited(s) ==> (newOffsetsBySource[s].After(has(offsetsBySource, s) ? offsetsBySource[s] : nil) ? result[s] == newOffsetsBySource[s] : (has(offsetsBySource, s) ==> result[s] == offsetsBySource[s]))
+//@   loop 1 invariant vals_rest: forall s :: !visited(s) && has(offsetsBySource, s) ==> result[s] == offsetsBySource[s]
